@@ -37,6 +37,11 @@ type c01Msg struct {
 	// AbortFull > 0: the abandoned package is AbortFull packet bodies longer, so that many full packets of it are
 	// on the wire - under the message type AbortType, without an end-of-message flag - before it is abandoned.
 	// The message that follows must still be a message of its own type.
+	// MidSize > 0 (message on the logical channel): after the first package of the message was queued - it is
+	// smaller than a packet body, so the packet is open and nothing was sent - the server announces this packet size
+	// (in its answer to a small message the client sends on channel 0 meanwhile). The open packet keeps the size it
+	// was created with, the packets behind it have the new one, and no byte of the message is lost.
+	MidSize   int `json:"mid_size,omitempty"`
 	AbortFull int `json:"abort_full,omitempty"`
 	AbortType int `json:"abort_type,omitempty"`
 }
@@ -160,6 +165,13 @@ func (c01) Gen(r *Rand, idx int, tier string) interface{} {
 		} else {
 			m.Split = "queue-all"
 		}
+		if p.Logical && !m.OnZero && m.Abort == 0 && len(m.Pkgs) >= 2 && m.Pkgs[0].Len < body && m.Pkgs[0].Kind == "raw" && r.Pct(35) {
+			m.MidSize = Pick(r, []int{256, 300, 511, 513, 768, 1024, 4096})
+			if m.MidSize == ps {
+				m.MidSize++
+			}
+			ps = m.MidSize
+		}
 		if r.Pct(50) {
 			if r.Pct(70) {
 				m.NextSize = Pick(r, c01Sizes)
@@ -204,6 +216,12 @@ func (c01) Shrink(plan interface{}) []interface{} {
 			q := *p
 			q.Msgs = append([]c01Msg{}, p.Msgs...)
 			q.Msgs[i].NextSize = 0
+			out = append(out, &q)
+		}
+		if m.MidSize > 0 && m.NextSize == 0 && i == len(p.Msgs)-1 {
+			q := *p
+			q.Msgs = append([]c01Msg{}, p.Msgs...)
+			q.Msgs[i].MidSize = 0
 			out = append(out, &q)
 		}
 		if m.AbortFull > 0 {
@@ -314,6 +332,14 @@ func (c01) Run(plan interface{}, schedSeed uint64, replay []simrt.Choice, lenien
 			s.After(time.Millisecond, "respond", func() {
 				armed = false
 				var body []byte
+				if mi >= 0 && mi < len(p.Msgs) && p.Msgs[mi].MidSize != 0 && pk.H.Channel == 0 {
+					// the side message of a MidSize message: its answer announces the size, and that is all
+					body = append(body, peer.EnvChange(peer.EnvMember{Type: 4, New: fmt.Sprint(p.Msgs[mi].MidSize), Old: "512"})...)
+					body = append(body, peer.Done(0, 0, 0)...)
+					pr.SendResponse(pk.H.Channel, body, nil)
+					s.Fault("packet-size-change-mid-message")
+					return
+				}
 				if mi >= 0 && mi < len(p.Msgs) && p.Msgs[mi].NextSize != 0 {
 					body = append(body, peer.EnvChange(peer.EnvMember{Type: 4, New: fmt.Sprint(p.Msgs[mi].NextSize), Old: "512"})...)
 				}
@@ -417,6 +443,26 @@ func (c01) Run(plan interface{}, schedSeed uint64, replay []simrt.Choice, lenien
 					sendErrs = append(sendErrs, fmt.Sprintf("message %d package %d: %v", mi, pi, err))
 					break
 				}
+				if pi == 0 && m.MidSize > 0 {
+					ch0.CurrentHeaderType = tds.TDS_BUF_NORMAL
+					if err := ch0.SendPackage(ctx, &tds.LanguagePackage{Cmd: "side"}); err != nil {
+						sendErrs = append(sendErrs, fmt.Sprintf("message %d: side message on channel 0: %v", mi, err))
+						break
+					}
+					for n := 0; n < 50; n++ {
+						pkg, err := ch0.NextPackage(ctx, true)
+						if err != nil {
+							sendErrs = append(sendErrs, fmt.Sprintf("message %d: answer to the side message: %v", mi, err))
+							break
+						}
+						if d, ok := pkg.(*tds.DonePackage); ok && d.Status == tds.TDS_DONE_FINAL {
+							break
+						}
+					}
+					if conn.PacketSize() != m.MidSize {
+						sendErrs = append(sendErrs, fmt.Sprintf("message %d: the packet size announced in the middle of the message (%d) is not in force (%d)", mi, m.MidSize, conn.PacketSize()))
+					}
+				}
 			}
 			// wait for the peer's answer (which may change the packet size)
 			for n := 0; n < 50; n++ {
@@ -518,6 +564,31 @@ func (c01) Run(plan interface{}, schedSeed uint64, replay []simrt.Choice, lenien
 			v.Violate("nothing-sent", "nothing sent: "+sigB, "%s: no packet reached the transport", where)
 			break
 		}
+		psOld := ps
+		if m.MidSize > 0 {
+			var main []peer.RecvPacket
+			side := 0
+			for _, pk := range pkts {
+				if pk.H.Channel == 0 {
+					side++
+				} else {
+					main = append(main, pk)
+				}
+			}
+			if side != 1 {
+				v.Violate("side-message", "side message on channel 0", "%s: the small message sent on channel 0 in the middle arrived as %d packets", where, side)
+			}
+			pkts = main
+			v.Probe("packet-size-change-mid-message")
+		}
+		// wantPs: the size a packet of this message must have when full: the first one was opened before a size
+		// announced in mid-message
+		wantPs := func(i int) int {
+			if m.MidSize > 0 && i > 0 {
+				return m.MidSize
+			}
+			return psOld
+		}
 		// full packets of an abandoned message come first
 		for k := 0; k < m.AbortFull && v.Class == ""; k++ {
 			if len(pkts) == 0 {
@@ -546,11 +617,11 @@ func (c01) Run(plan interface{}, schedSeed uint64, replay []simrt.Choice, lenien
 		var got []byte
 		for i, pk := range pkts {
 			last := i == len(pkts)-1
-			if int(pk.H.Length) > ps {
-				v.Violate("oversize", "packet larger than packet size", "%s: packet %d has length %d", where, i, pk.H.Length)
+			if int(pk.H.Length) > wantPs(i) {
+				v.Violate("oversize", "packet larger than packet size", "%s: packet %d has length %d (size in force for it: %d)", where, i, pk.H.Length, wantPs(i))
 			}
-			if !last && int(pk.H.Length) != ps {
-				v.Violate("short-packet", "non-final packet not full: "+sigB, "%s: packet %d of %d has length %d", where, i, len(pkts), pk.H.Length)
+			if !last && int(pk.H.Length) != wantPs(i) {
+				v.Violate("short-packet", "non-final packet not full: "+sigB, "%s: packet %d of %d has length %d (size in force for it: %d)", where, i, len(pkts), pk.H.Length, wantPs(i))
 			}
 			if int(pk.H.Type) != m.HeaderType {
 				v.Violate("wrong-type", "wrong message type", "%s: packet %d has type %d", where, i, pk.H.Type)
@@ -595,6 +666,9 @@ func (c01) Run(plan interface{}, schedSeed uint64, replay []simrt.Choice, lenien
 			nontrivial += fmt.Sprintf("%d/%s/m%d/%s/%v%v;", ps, cls, mcount, m.Split, p.Logical, m.OnZero)
 		}
 		v.Probe("boundary:" + cls)
+		if m.MidSize != 0 {
+			ps = m.MidSize
+		}
 		if m.NextSize != 0 {
 			ps = m.NextSize
 			v.Probe("packet-size-change")
